@@ -121,7 +121,11 @@ def check_paths(sh, holders) -> list[dict]:
         reads = set(h.read) | set(h.write)
         for n in h.graph.nodes:
             if isinstance(n, Column) and isinstance(n.parent, Table) and n.parent not in reads:
-                orphan_owner.add(str(n.parent))
+                # ... unless the "table" is called like an alias the statement defines: then a reference through a
+                # visible alias was not resolved, which is no recorded class
+                aliases = {v for _, v, a in h.graph.edges(data=True) if a.get("type") == "has_alias"}
+                if n.parent.raw_name not in aliases:
+                    orphan_owner.add(str(n.parent))
     targets = set(sh.target_tables) | set(sh.intermediate_tables)
     for path in sh.get_column_lineage(True, False):
         p = [str(c) for c in path]
